@@ -81,9 +81,32 @@ def psi_closed(x):
 
 # ----------------------------------------------------------------------------- profiles
 @S.kind("profiles")
-def profiles(closure, n, zm, z0, um, vm, mol, prsc, dh_factor, given, stretch_factor=0):
+def profiles(closure, n, zm, z0, um, vm, mol, prsc, dh_factor, given, stretch_factor=0, wind_form="tuple"):
     import numpy as np
-    from bldfm.pbl_model import vertical_profiles
+    from bldfm.pbl_model import vertical_profiles as _vp
+    # "the supplied wind vector": a tuple, a list, or a float64 array the caller keeps and uses again (the call must not
+    # change it, and the second call with the same array is the one judged)
+    wind_obj = {"tuple": (um, vm), "list": [um, vm], "array": np.array([um, vm], dtype=np.float64)}[wind_form]
+
+    def vertical_profiles(n_, zm_, _wind, **k_):
+        if wind_form != "array":
+            return _vp(n_, zm_, wind_obj, **k_)
+        _vp(n_, zm_, wind_obj, **k_)
+        if not (wind_obj[0] == um and wind_obj[1] == vm):
+            raise _WindChanged("vertical_profiles changed the wind array it was given: (%r, %r) -> %r" % (um, vm, wind_obj.tolist()))
+        return _vp(n_, zm_, wind_obj, **k_)
+    try:
+        return _profiles(vertical_profiles, closure, n, zm, z0, um, vm, mol, prsc, dh_factor, given, stretch_factor)
+    except _WindChanged as e:
+        return Verdict(False, str(e), key="argument-changed")
+
+
+class _WindChanged(Exception):
+    pass
+
+
+def _profiles(vertical_profiles, closure, n, zm, z0, um, vm, mol, prsc, dh_factor, given, stretch_factor=0):
+    import numpy as np
     absum = math.hypot(um, vm)
     ustar = absum * KAP / (math.log(zm / z0) + psi_closed(zm / mol))
     kw = dict(mol=mol, prsc=prsc, closure=closure)
@@ -348,7 +371,7 @@ def generate(tier, rng):
                 dh = 0
             yield "profiles", dict(closure=closure, n=n, zm=zm, z0=z0, um=um, vm=vm, mol=mol,
                                    prsc=rng.choice([1.0, 1.0, 0.7, 1.3]), dh_factor=dh,
-                                   given=("ustar", "z0")[k % 2])
+                                   given=("ustar", "z0")[k % 2], wind_form=("tuple", "array", "tuple", "list", "tuple")[k % 5])
             if k % 6 == 0 and n >= 4:
                 # stretching scale given (2.5 / 3 / 4 zm: the whole default column stays below the asymptote of the map),
                 # domain height at its default
